@@ -281,8 +281,8 @@ theorem createPersistent_frame {m h k ty name d} (hi : InvX w none)
     rw [← hid]
     exact (createRaw_frame hm).trans (markPersistent_frame h1 hs0 (by rw [htr, hmid]))
 
-theorem setPersistent_frame {m h b} (hi : InvX w none) (e : setPersistent w m h b = .ok (w1, r)) :
-    FrameStep w w1 [m] (hget w h).toList := by
+theorem setPersistent_frame {m h b} {O : List Nat} (hi : InvX w none) (e : setPersistent w m h b = .ok (w1, r)) :
+    FrameStep w w1 [m] O := by
   unfold setPersistent at e
   split at e; · cases e
   rename_i s hs
@@ -298,8 +298,8 @@ theorem shareFlag_frame {w0 : World} {m : Nat} {s0 : Storage} (hi : InvX w0 none
     FrameStep w0 (modS w0 s0.id (fun s => { s with shared := b })) [m] O :=
   frame_modS s0.id (fun s : Storage => { s with shared := b }) (fun _ => rfl) (storage_is hi h0 ht O).1 (storage_is hi h0 ht O).2
 
-theorem setShared_frame {m h b} (hi : InvX w none) (e : setShared w m h b = .ok (w1, r)) :
-    FrameStep w w1 [m] (hget w h).toList := by
+theorem setShared_frame {m h b} {O : List Nat} (hi : InvX w none) (e : setShared w m h b = .ok (w1, r)) :
+    FrameStep w w1 [m] O := by
   unfold setShared at e
   split at e; · cases e
   rename_i s hs
@@ -756,5 +756,139 @@ theorem step_frame {w w' : World} {op : Op} {r : Res} (hi : Inv w) (e : step w o
     FrameStep w w' (op.touches w) (op.operated w) := by
   obtain ⟨w1, h, rfl⟩ := step_ok e
   exact frame_gc hi (core_frame hi.x h)
+
+
+/-! ### consequences -/
+
+theorem hget_of_mem {w : World} {ex} (hi : InvX w ex) {h sid : Nat} (hm : (h, sid) ∈ w.handles) :
+    hget w h = some sid := by
+  cases hf : hget w h with
+  | none => exact (hget_none hf (h, sid) hm rfl).elim
+  | some sid' =>
+    have hm' := hget_some hf
+    -- two entries with the same slot
+    have key : ∀ (l : List (Nat × Nat)), (l.map (·.1)).Nodup → (h, sid) ∈ l → (h, sid') ∈ l → sid' = sid := by
+      intro l
+      induction l with
+      | nil => intro _ h1; simp at h1
+      | cons a l ih =>
+        intro nd h1 h2
+        simp only [List.map_cons, List.nodup_cons, List.mem_map, not_exists, not_and] at nd
+        simp only [List.mem_cons] at h1 h2
+        rcases h1 with h1 | h1 <;> rcases h2 with h2 | h2
+        · rw [← h1] at h2; exact (Prod.mk.inj h2).2
+        · exact absurd (by rw [← h1]) (nd.1 (h, sid') h2)
+        · exact absurd (by rw [← h2]) (nd.1 (h, sid) h1)
+        · exact ih nd.2 h1 h2
+    rw [key w.handles hi.handleKeys hm hm']
+
+/-- a storage addressed through a handle belongs to a touched mesh (if it is attached at all) -/
+theorem operated_touched {w : World} (hi : Inv w) (op : Op) {s : Storage} (hs : s ∈ w.heap)
+    (ho : s.id ∈ op.operated w) : ∀ B, s.tracker = some B → B ∈ op.touches w := by
+  have key : ∀ h, s.id ∈ (hget w h).toList → ∀ B, s.tracker = some B →
+      B ∈ (match hview w h with | some s => s.tracker.toList | none => []) := by
+    intro h hin B hB
+    cases hh : hget w h with
+    | none => simp [hh] at hin
+    | some sid =>
+      simp [hh] at hin
+      have : hview w h = some s := by
+        unfold hview; rw [hh]; simp only [Option.bind_some]; rw [← hin]; exact getS_of_mem hi.x hs
+      simp [this, hB]
+  cases op <;> simp only [Op.operated, List.not_mem_nil] at ho <;> simp only [Op.touches]
+  all_goals exact key _ ho
+
+/-- **Frame theorem, meshes.**  A call that does not touch mesh `B` leaves everything `B` can
+    see unchanged: its record and the set of storages it tracks (with their full contents). -/
+theorem frame_mesh {w w' : World} {op : Op} {r : Res} (hi : Inv w) (e : step w op = .ok (w', r))
+    {B : Nat} (hB : B ∉ op.touches w) :
+    getM w' B = getM w B ∧ ∀ s, s.tracker = some B → (s ∈ w'.heap ↔ s ∈ w.heap) := by
+  have f := step_frame hi e
+  refine ⟨f.mesh B hB, fun s hs => ⟨fun h => f.bwd s h (fun A hA e' => hB (by rw [hs] at e'; cases e'; exact hA)) (by simp [hs]), ?_⟩⟩
+  intro h
+  refine f.fwdHeap s h (fun A hA e' => hB (by rw [hs] at e'; cases e'; exact hA)) ?_
+  intro ho
+  exact hB (operated_touched hi op h ho B hs)
+
+/-- **Frame theorem, handles.**  A handle whose storage is neither attached to a touched mesh nor
+    the storage the call addresses sees exactly what it saw before. -/
+theorem frame_handle {w w' : World} {op : Op} {r : Res} (hi : Inv w) (e : step w op = .ok (w', r))
+    {h : Nat} {s : Storage} (hv : hview w h = some s) (hT : ∀ A ∈ op.touches w, s.tracker ≠ some A)
+    (hO : s.id ∉ op.operated w) : hview w' h = some s := by
+  have f := step_frame hi e
+  have hi' := step_inv hi e
+  unfold hview at hv
+  cases hh : hget w h with
+  | none => simp [hh] at hv
+  | some sid =>
+    simp only [hh, Option.bind_some] at hv
+    obtain ⟨hs, hid⟩ := getS_some hv
+    have hp : (h, sid) ∈ w'.handles := f.fwdHandles (h, sid) (hget_some hh) (by rw [← hid]; exact hO)
+    have hs' : s ∈ w'.heap := f.fwdHeap s hs hT hO
+    unfold hview
+    rw [hget_of_mem hi'.x hp]
+    simp only [Option.bind_some]
+    rw [← hid]; exact getS_of_mem hi'.x hs'
+
+/-- what mesh `B` can see is the same in both states -/
+def SameView (w' w : World) (B : Nat) : Prop :=
+  getM w' B = getM w B ∧ ∀ s, s.tracker = some B → (s ∈ w'.heap ↔ s ∈ w.heap)
+
+/-- none of the operations of the sequence touches mesh `B` (in the state it is applied in) -/
+def Untouched (B : Nat) : World → List Op → Prop
+  | _, [] => True
+  | w, op :: ops => B ∉ op.touches w ∧ Untouched B (next w op) ops
+
+/-- **Frame theorem, histories.**  Whatever is done to other meshes and their handles — any
+    sequence of registry calls, handle copies and drops, topology changes, further copies and
+    assignments, destructions — mesh `B` looks the same afterwards. -/
+theorem frame_run {B : Nat} (ops : List Op) {w : World} (hi : Inv w) (hu : Untouched B w ops) :
+    SameView (run w ops) w B := by
+  induction ops generalizing w with
+  | nil => exact ⟨rfl, fun _ _ => Iff.rfl⟩
+  | cons op ops ih =>
+    obtain ⟨h1, h2⟩ := hu
+    have hn := ih (next_inv op hi) h2
+    have hstep : SameView (next w op) w B := by
+      unfold next
+      split
+      · rename_i w' r hs; exact frame_mesh hi hs h1
+      · exact ⟨rfl, fun _ _ => Iff.rfl⟩
+    exact ⟨hn.1.trans hstep.1, fun s hs => (hn.2 s hs).trans (hstep.2 s hs)⟩
+
+/-! ### disjointness -/
+
+/-- every storage id mesh `m` can reach: its position handle, its persistent set, its tracker -/
+def reach (w : World) (m : Nat) : List Nat :=
+  match getM w m with
+  | some me => me.pos :: me.pers ++ (w.heap.filter (fun s => s.tracker == some m)).map (·.id)
+  | none => []
+
+theorem reach_tracked {w : World} (hi : Inv w) {m i : Nat} (h : i ∈ reach w m) :
+    ∃ s ∈ w.heap, s.id = i ∧ s.tracker = some m := by
+  unfold reach at h
+  cases hm : getM w m with
+  | none => simp [hm] at h
+  | some me =>
+    obtain ⟨hme, hmid⟩ := getM_some hm
+    simp only [hm, List.mem_cons, List.mem_append, List.mem_map, List.mem_filter] at h
+    rcases h with (rfl | h) | ⟨s, ⟨hs, ht⟩, rfl⟩
+    · obtain ⟨s, hs, e1, e2, _⟩ := hi.x.posOk me hme (by simp)
+      exact ⟨s, hs, e1, by rw [e2, hmid]⟩
+    · obtain ⟨s, hs, e1, _, e3⟩ := hi.x.persEntry me hme i h
+      exact ⟨s, hs, e1, by rw [e3, hmid]⟩
+    · exact ⟨s, hs, rfl, by simpa using ht⟩
+
+/-- **Disjoint**: distinct meshes reach disjoint sets of storages; every tracked id is owned by
+    exactly one tracker -/
+theorem reach_disjoint {w : World} (hi : Inv w) {A B : Nat} (hne : A ≠ B) :
+    ∀ i, i ∈ reach w A → i ∉ reach w B := by
+  intro i hA hB
+  obtain ⟨s, hs, e1, e2⟩ := reach_tracked hi hA
+  obtain ⟨t, ht, f1, f2⟩ := reach_tracked hi hB
+  have : s = t := hi.x.idInj s hs t ht (e1.trans f1.symm)
+  subst this
+  rw [e2] at f2
+  exact hne (by simpa using f2)
 
 end OVM.Registry
